@@ -810,9 +810,12 @@ func regenTrace(m *propMeta, v *Violation) []uint64 {
 		os.Exit(2)
 	}
 	b, _ := os.ReadFile(tf)
-	tr := make([]uint64, 0, len(b)/8)
-	for i := 0; i+8 <= len(b); i += 8 {
-		tr = append(tr, binary.LittleEndian.Uint64(b[i:]))
+	var tr []uint64
+	if len(b) >= 8 {
+		n := int(binary.LittleEndian.Uint64(b))
+		for i := 1; i <= n && 8*i+8 <= len(b); i++ {
+			tr = append(tr, binary.LittleEndian.Uint64(b[8*i:]))
+		}
 	}
 	os.Remove(f)
 	os.Remove(tf)
